@@ -525,7 +525,7 @@ def scalar_sites(docs):
             for i, x in enumerate(o):
                 walk(x, key, path + [i])
         elif isinstance(o, (str, int, float, bool)) and o is not None:
-            if isinstance(o, str) and (not o or any(ch in o for ch in '"\\{}%\n')):
+            if isinstance(o, str) and (not o or any(ch in '"\\{}%' or ord(ch) < 32 for ch in o)):
                 return
             sites.append((key, path))
 
@@ -575,6 +575,7 @@ def render(doc, files, layout, params, directory, prologue=""):
         docs[name] = copy.deepcopy(content)
     sites = scalar_sites(docs)
     expressions = {}
+    helpers = {}
     user_params = {}
     used_sites = set()
     for n, p in enumerate(params):
@@ -591,6 +592,17 @@ def render(doc, files, layout, params, directory, prologue=""):
             default = _other(value)
         else:
             default = value
+        if p.get("helper") and key == "track.json" and isinstance(path[-1], str):
+            # docs/advanced.rst: {{ rally.exists_set_param(setting_name, value, default_value) }} writes '"setting_name": value' with the
+            # user's value if the parameter is defined (whatever it is: 0, false and "" are values) and with the default otherwise
+            parent = _get(docs[key], path[:-1])
+            del parent[path[-1]]
+            sentinel = f"@@HELPER{n}@@"
+            parent[sentinel] = 0
+            helpers[json.dumps(sentinel) + ": 0"] = (
+                f' {{{{ rally.exists_set_param({json.dumps(path[-1])}, {name}, default_value={_jinja_literal(default)}, comma=False) }}}} '
+            )  # (blanks around it: "{" + "{{" would open a Jinja expression one character early)
+            continue
         expr = f"{{{{ {name} | default({_jinja_literal(default)}) }}}}"
         if isinstance(value, bool):
             expr = f"{{{{ {name} | default({_jinja_literal(default)}) | tojson }}}}"
@@ -625,7 +637,7 @@ def render(doc, files, layout, params, directory, prologue=""):
             items.append(collect(f"challenges/challenge-{i}.json"))
         main["challenges"] = items
     texts = {"track.json": dumps(main)}
-    if layout.get("import") or collects:
+    if layout.get("import") or collects or helpers:
         texts["track.json"] = '{% import "rally.helpers" as rally with context %}\n' + texts["track.json"]
     if prologue:
         texts["track.json"] = prologue + "\n" + texts["track.json"]
@@ -638,6 +650,8 @@ def render(doc, files, layout, params, directory, prologue=""):
             text = text.replace(json.dumps(sentinel), expr)
         for sentinel, (expr, is_str) in expressions.items():
             text = text.replace(json.dumps(sentinel), '"' + expr + '"' if is_str else expr)
+        for pair, expr in helpers.items():
+            text = text.replace(pair, expr)
         return text
 
     for name, text in texts.items():
@@ -645,4 +659,4 @@ def render(doc, files, layout, params, directory, prologue=""):
         os.makedirs(os.path.dirname(path), exist_ok=True)
         with open(path, "w", encoding="utf-8") as f:
             f.write(finish(text))
-    return {"track_file": os.path.join(directory, "track.json"), "user_params": user_params, "n_params": len(expressions), "parts": bool(parts)}
+    return {"track_file": os.path.join(directory, "track.json"), "user_params": user_params, "n_params": len(expressions) + len(helpers), "parts": bool(parts), "helpers": len(helpers)}
